@@ -180,6 +180,8 @@ def build_handlers(sc, rec, miros):
                 if i is not None:
                     return chart.trans(handlers[i])
                 return return_status.HANDLED
+            elif sig == signals.SEARCH_FOR_SUPER_SIGNAL and sc.get('none_super') == s:
+                return None            # a malformed handler: answers the parent probe with nothing, names no parent
             elif sig == signals.EMPTY_SIGNAL:
                 rec.empties.append(s)
             elif sig not in (signals.SEARCH_FOR_SUPER_SIGNAL, signals.REFLECTION_SIGNAL):
@@ -189,6 +191,9 @@ def build_handlers(sc, rec, miros):
                     if r[0] == 'tran':
                         return chart.trans(handlers[r[1]])
                     if r[0] == 'handled':
+                        if sc.get('hook_queries'):
+                            # a hook whose action asks the chart where it is (public API, rewrites the name book-keeping)
+                            chart.is_in(handlers[s])
                         return return_status.HANDLED
                     if r[0] == 'decline':
                         return return_status.UNHANDLED
@@ -202,6 +207,16 @@ def build_handlers(sc, rec, miros):
         return handler
 
     raw = [make(s) for s in range(n)]
+    if sc.get('plain_decorator'):
+        # state functions carrying some other functools.wraps decorator (not spy_on): still undecorated for miros
+        import functools
+
+        def passthrough(f):
+            @functools.wraps(f)
+            def logged_call(chart, e):
+                return f(chart, e)
+            return logged_call
+        raw = [passthrough(f) for f in raw]
     if sc.get('spy'):
         from miros.hsm import spy_on
         for s in range(n):
@@ -431,7 +446,15 @@ def run_instrumented(sc, clock=None):
         live_spy, live_trace = [], []
         if hasattr(chart, 'register_live_spy_callback'):
             chart.live_spy, chart.live_trace = bool(sc.get('live_spy')), bool(sc.get('live_trace'))
-            chart.register_live_spy_callback(live_spy.append)
+            if sc.get('callback_scribbles'):
+                # a live callback that uses the chart's public API (leaves a note in the step log)
+                def spy_cb(line):
+                    live_spy.append(line)
+                    if len(live_spy) % 2:
+                        chart.scribble('CB:note')
+                chart.register_live_spy_callback(spy_cb)
+            else:
+                chart.register_live_spy_callback(live_spy.append)
             chart.register_live_trace_callback(live_trace.append)
         steps = []
 
